@@ -87,13 +87,15 @@ Lemma tree_ind' (P : tree -> Prop) :
   (forall cs, Forall (fun nc => P (snd nc)) cs -> P (Dir cs)) ->
   (forall c x, P x -> P (Link c x)) ->
   P Other ->
+  P Special ->
   forall t, P t.
 Proof.
-  intros HF HD HL HO. fix IH 1. intros [ms|cs|c x|].
+  intros HF HD HL HO HS. fix IH 1. intros [ms|cs|c x| |].
   - apply HF.
   - apply HD. induction cs as [|[n c] cs IHcs]; constructor; [apply IH | exact IHcs].
   - apply HL, IH.
   - exact HO.
+  - exact HS.
 Qed.
 
 Fixpoint names_unique (t : tree) : Prop :=
@@ -140,7 +142,7 @@ Qed.
 
 Lemma sort_tree_sorted t : names_unique t -> sorted_tree (sort_tree t).
 Proof.
-  induction t as [ms|cs IH|c x IH|] using tree_ind'; intro Hu; simpl; try exact I.
+  induction t as [ms|cs IH|c x IH| |] using tree_ind'; intro Hu; simpl; try exact I.
   - destruct Hu as [Hnd Hall]. apply all_unique_Forall in Hall.
     set (cs' := map (fun nc : name * tree => let '(n, c) := nc in (n, sort_tree c)) cs).
     assert (Hnames : map fst cs' = map fst cs).
@@ -185,8 +187,8 @@ Proof. reflexivity. Qed.
 
 Lemma below_under t : forall p x, In x (map fst (below p t)) -> exists r, r <> [] /\ x = p ++ r.
 Proof.
-  induction t as [ms|cs IH|c x0 IH|] using tree_ind'; intros p x Hx;
-    [simpl in Hx; contradiction | | simpl in Hx | simpl in Hx; contradiction].
+  induction t as [ms|cs IH|c x0 IH| |] using tree_ind'; intros p x Hx;
+    [simpl in Hx; contradiction | | simpl in Hx | simpl in Hx; contradiction | simpl in Hx; contradiction].
   - induction cs as [|[n c] cs IHcs]; [simpl in Hx; contradiction|].
     rewrite below_dir_cons, map_app in Hx. apply in_app_iff in Hx.
     inversion IH as [|? ? Hc Hcs]; subst. destruct Hx as [Hx|Hx].
@@ -212,7 +214,7 @@ Qed.
 
 Lemma below_sorted t : sorted_tree t -> forall p, StronglySorted path_lt (map fst (below p t)).
 Proof.
-  induction t as [ms|cs IH|c x IH|] using tree_ind'; intros Hs p; simpl; try constructor.
+  induction t as [ms|cs IH|c x IH| |] using tree_ind'; intros Hs p; simpl; try constructor.
   - destruct Hs as [Hn Hall]. apply all_sorted_Forall in Hall.
     change (StronglySorted path_lt (map fst (below p (Dir cs)))).
     unfold names_sorted in Hn.
@@ -235,8 +237,49 @@ Proof.
   - now apply IH.
 Qed.
 
+(* dropping hidden entries keeps sibling names distinct *)
+Definition prune_child (nc : name * tree) : list (name * tree) :=
+  let '(n, c) := nc in if is_hidden n then [] else [(n, prune c)].
+
+Lemma prune_dir cs : prune (Dir cs) = Dir (flat_map prune_child cs).
+Proof. reflexivity. Qed.
+
+Lemma In_prune_children cs z :
+  In z (flat_map prune_child cs) <-> exists c, In (fst z, c) cs /\ is_hidden (fst z) = false /\ snd z = prune c.
+Proof.
+  rewrite in_flat_map. split.
+  - intros ([n c] & Hin & Hz). unfold prune_child in Hz. destruct (is_hidden n) eqn:E; [contradiction|].
+    destruct Hz as [<-|[]]. exists c. auto.
+  - intros (c & Hin & Hh & Hz). exists (fst z, c). split; [exact Hin|]. unfold prune_child. rewrite Hh.
+    left. destruct z; simpl in *; now subst.
+Qed.
+
+Lemma prune_children_names cs n : In n (map fst (flat_map prune_child cs)) -> In n (map fst cs).
+Proof.
+  intro H. apply in_map_iff in H. destruct H as (z & <- & Hz). apply In_prune_children in Hz.
+  destruct Hz as (c & Hin & _). apply in_map_iff. now exists (fst z, c).
+Qed.
+
+Lemma prune_children_nodup cs : NoDup (map fst cs) -> NoDup (map fst (flat_map prune_child cs)).
+Proof.
+  induction cs as [|[n c] cs IH]; intro H; simpl; [constructor|].
+  inversion H; subst. destruct (is_hidden n); simpl; [now apply IH|].
+  constructor; [|now apply IH]. intro Hc. apply prune_children_names in Hc. contradiction.
+Qed.
+
+Lemma prune_unique t : names_unique t -> names_unique (prune t).
+Proof.
+  induction t as [ms|cs IH|c x IH| |] using tree_ind'; intro Hu; try exact I.
+  - destruct Hu as [Hnd Hall]. apply all_unique_Forall in Hall. rewrite prune_dir. split.
+    + now apply prune_children_nodup.
+    + apply all_unique_Forall. apply Forall_forall. intros z Hz. apply In_prune_children in Hz.
+      destruct Hz as (c & Hin & _ & ->). rewrite Forall_forall in IH, Hall.
+      apply (IH (fst z, c) Hin). apply (Hall (fst z, c) Hin).
+  - simpl. now apply IH.
+Qed.
+
 Theorem walk_sorted_thm : forall t p, names_unique t -> StronglySorted path_lt (map fst (walk p t)).
-Proof. intros t p H. unfold walk. apply below_sorted. now apply sort_tree_sorted. Qed.
+Proof. intros t p H. unfold walk. apply below_sorted. apply sort_tree_sorted. now apply prune_unique. Qed.
 
 (* "sorted path order" is NOT byte order of the joined strings: a sibling whose name continues a
    directory's name with a byte below '/' sorts after the directory's content component-wise and
@@ -307,8 +350,8 @@ Section Equiv.
   Lemma kept_same uat e : kept e = true -> link_agrees e -> walked uat e = explicit uat e.
   Proof.
     destruct e as [p t]. unfold kept, is_file_entry, excluded, link_agrees, walked, explicit,
-      walked_result, explicit_result. cbn [fst snd].
-    destruct (resolve t) as [ms| | |]; try discriminate. simpl.
+      walked_result, explicit_result, walked_gen, explicit_gen. cbn [fst snd].
+    destruct (resolve t) as [ms| | | |]; try discriminate. simpl.
     intros Hk Ha. fold cls. rewrite Ha.
     destruct (cls_uat (last_name p)) as [E|E].
     - rewrite E in Hk. discriminate.
@@ -316,11 +359,12 @@ Section Equiv.
   Qed.
 
   Lemma dropped_nothing uat e : kept e = false ->
-    walked uat e = [] \/ walked uat e = [PNotSupported (pstr root_str (fst e))].
+    walked uat e = [] \/ walked uat e = [PNotSupported (pstr root_str (fst e))]
+    \/ walked uat e = [PNotAFile (pstr root_str (fst e))].
   Proof.
-    destruct e as [p t]. unfold kept, is_file_entry, excluded, walked, walked_result. cbn [fst snd].
-    destruct (resolve t) as [ms| | |]; try (left; reflexivity). simpl. fold cls.
-    destruct (cls false (last_name p)) as [[| | | |]| |]; try discriminate. right. reflexivity.
+    destruct e as [p t]. unfold kept, is_file_entry, excluded, walked, walked_result, walked_gen. cbn [fst snd].
+    destruct (resolve t) as [ms| | | |]; try (left; reflexivity); [|right; right; reflexivity]. simpl. fold cls.
+    destruct (cls false (last_name p)) as [[| | | |]| |]; try discriminate. right. left. reflexivity.
   Qed.
 
   Theorem dir_equiv_explicit_thm : forall uat (E : list (path * tree)),
@@ -328,7 +372,8 @@ Section Equiv.
     flat_map (walked uat) (filter kept E) = flat_map (explicit uat) (filter kept E)
     /\ valids (flat_map (walked uat) E) = valids (flat_map (explicit uat) (filter kept E))
     /\ (forall e, In e E -> kept e = false ->
-          walked uat e = [] \/ walked uat e = [PNotSupported (pstr root_str (fst e))]).
+          walked uat e = [] \/ walked uat e = [PNotSupported (pstr root_str (fst e))]
+          \/ walked uat e = [PNotAFile (pstr root_str (fst e))]).
   Proof.
     intros uat E Hl.
     assert (H1 : flat_map (walked uat) (filter kept E) = flat_map (explicit uat) (filter kept E)).
@@ -340,7 +385,7 @@ Section Equiv.
     - rewrite <- H1. clear H1 Hl. induction E as [|e E IH]; [reflexivity|]. simpl.
       unfold valids in *. rewrite filter_app. destruct (kept e) eqn:Ek.
       + simpl. rewrite filter_app. now rewrite IH.
-      + destruct (dropped_nothing uat e Ek) as [->| ->]; simpl; exact IH.
+      + destruct (dropped_nothing uat e Ek) as [->|[->| ->]]; simpl; exact IH.
     - intros e _ Hk. now apply dropped_nothing.
   Qed.
 
@@ -352,7 +397,7 @@ Section Equiv.
     \/ (exists a, cls true (canon_name (last_name p) t) = RArchiveTar a
                   /\ explicit uat (p, t) = tar_results sfx_table name_table junk junk_lead uat (pstr root_str p) ms).
   Proof.
-    intros uat p t ms Hr Hf. unfold explicit, explicit_result. rewrite Hr. fold cls.
+    intros uat p t ms Hr Hf. unfold explicit, explicit_result, explicit_gen. rewrite Hr. fold cls.
     pose proof (classify_true_parsable sfx_table name_table junk junk_lead
                   (S (length (canon_name (last_name p) t))) Normal (canon_name (last_name p) t)) as Hp.
     fold (classify_top sfx_table name_table junk junk_lead true (canon_name (last_name p) t)) in Hp.
@@ -422,7 +467,7 @@ End Stdin.
 Definition ex_tree : tree :=
   Dir [ ([115; 117; 98; 33; 120], File []);                       (* "sub!x" *)
         ([115; 117; 98], Dir [([122], File []); ([97], File [])]);  (* "sub" / {"z","a"} *)
-        ([108], Link [100] (Dir [([113], File [])])) ].             (* "l" -> dir "d" / "q" *)
+        ([108], Link [[100]] (Dir [([113], File [])])) ].             (* "l" -> dir "d" / "q" *)
 
 Example walk_example :
   names_unique ex_tree
